@@ -61,6 +61,10 @@ def gen(seed, idx, tier):
         op = {"k": "req", "t": t, "p": r.randrange(3), "ch": "u" if r.random() < 0.88 else "m", "msgs": [rand_msg(r) for _ in range(n)]}
         if r.random() < 0.3:
             op["port"] = r.choice([30491, 40000, 1])
+        elif r.random() < 0.2:
+            # callers of a dual-stack service: global, link-local (with scope id) and IPv4-mapped IPv6 source addresses;
+            # the reply goes to exactly the sockaddr the request came from
+            op["src"] = r.choice([["2001:db8::%d" % (11 + op["p"]), 40000, 0, 0], ["fe80::%d" % (11 + op["p"]), 30491, 0, 2], ["::ffff:10.0.0.%d" % (11 + op["p"]), 40000, 0, 0], ["::ffff:192.0.2.7", 30490, 0, 0]])
         if r.random() < 0.08:
             op["tail"] = r.choice(["00", "ffff", "43210001000000080000000002000000" + "00" * 3, "4321000100000007"])
         ops.append(op)
